@@ -1,4 +1,477 @@
-//! hybridclock: not built yet.
-pub fn run(args: &vh_common::Args) {
-    vh_common::unknown(args)
+//! HybridClock (C18): `HybridTimestamp::increment` under mock_instant's thread-local wall clock and
+//! chains of self-published transport records through `UnsignedTransportInfo::increment_timestamp`
+//! and `NodeInfo::update_transports`, against spec/HybridClock.
+//!
+//! This package is built with `p2panda-core/test_utils`, so `Timestamp::now()` reads
+//! `mock_instant::thread_local::SystemTime`: every "wall-clock reading" of the specification is set
+//! with `MockClock::set_system_time` right before the call that reads it (single thread).
+use std::time::Duration;
+
+use mock_instant::thread_local::MockClock;
+use p2panda_core::SigningKey;
+use p2panda_core::timestamp::{HybridTimestamp, LamportTimestamp, Timestamp};
+use p2panda_net::iroh_endpoint::{EndpointAddr, RelayUrl};
+use p2panda_net::utils::from_verifying_key;
+use p2panda_net::addrs::{
+    AuthenticatedTransportInfo, NodeInfo, TransportAddress, TransportInfo, UnsignedTransportInfo,
+};
+use vh_common::{Args, Outcome, Rng, TraceWriter, Value, catch, json, read_ndjson, unknown};
+
+pub fn run(args: &Args) {
+    match args.mode.as_str() {
+        "replay" => replay(args),
+        "record" => record(args),
+        _ => unknown(args),
+    }
+}
+
+fn set_wall(micros: u64) {
+    MockClock::set_system_time(Duration::from_micros(micros));
+}
+
+fn hts(t: u64, l: u64) -> HybridTimestamp {
+    HybridTimestamp::from_parts(Timestamp::new(t), LamportTimestamp::new(l))
+}
+
+/// (wall part, logical part) — the logical part has no public getter, `Display` prints it.
+fn parts(ts: &HybridTimestamp) -> (u64, u64) {
+    let (t, l) = ts.to_parts();
+    (t.into(), l.to_string().parse().expect("lamport display is a number"))
+}
+
+fn pair(v: &Value) -> (u64, u64) {
+    (v[0].as_u64().expect("t"), v[1].as_u64().expect("l"))
+}
+
+/// The call under test: `ts.increment()` while the wall clock reads `wall`.
+fn increment_at(ts: (u64, u64), wall: u64) -> Result<(u64, u64), String> {
+    set_wall(wall);
+    catch(|| parts(&hts(ts.0, ts.1).increment()))
+}
+
+/// Order-preserving embeddings of the model's small naturals into microsecond magnitudes the code
+/// meets in production: (offset, scale).
+const EMBEDDINGS: &[(u64, u64)] = &[
+    (0, 1),
+    (1_700_000_000_000_000, 1),
+    (1_700_000_000_000_000, 1_000_000),
+    (u64::MAX / 4, 3_600_000_000),
+];
+
+fn embed(x: u64, e: (u64, u64)) -> u64 {
+    e.0 + x * e.1
+}
+
+fn check_inc(out: &mut Outcome, b: &Value) {
+    let ts = pair(&b["ts"]);
+    let wall = b["wall"].as_u64().expect("wall");
+    let exp = pair(&b["out"]);
+    for &e in EMBEDDINGS {
+        out.eval();
+        let ts_e = (embed(ts.0, e), ts.1);
+        let exp_e = (embed(exp.0, e), exp.1);
+        match increment_at(ts_e, embed(wall, e)) {
+            Ok(got) => {
+                let class = if wall < ts.0 {
+                    "wall-earlier"
+                } else if wall == ts.0 {
+                    "wall-equal"
+                } else {
+                    "wall-later"
+                };
+                out.count(class);
+                out.mark_distinct(format!("{}|{}|{:?}", b["ts"], wall, e));
+                if hts(got.0, got.1) <= hts(ts_e.0, ts_e.1) {
+                    out.violation(
+                        "C18",
+                        "increment-not-greater",
+                        format!(
+                            "increment of {ts_e:?} with the wall clock at {} returned {got:?}, which is not greater",
+                            embed(wall, e)
+                        ),
+                        b.clone(),
+                    );
+                } else if got != exp_e {
+                    out.violation(
+                        "C18",
+                        "increment-differs-from-spec",
+                        format!(
+                            "increment of {ts_e:?} with the wall clock at {} returned {got:?}, spec says {exp_e:?}",
+                            embed(wall, e)
+                        ),
+                        b.clone(),
+                    );
+                } else {
+                    out.sample(b.clone());
+                }
+            }
+            Err(p) => out.violation("C18", "increment-panics", p, b.clone()),
+        }
+    }
+}
+
+// ------------------------------------------------------------------------------------------------
+// chains of self-published transport records
+
+struct Chain {
+    key: SigningKey,
+    own: NodeInfo,
+    obs: NodeInfo,
+    published: Vec<AuthenticatedTransportInfo>,
+}
+
+fn address(key: &SigningKey, a: &str) -> TransportAddress {
+    // one distinct home relay per abstract address-set id (`TransportAddress::from_iroh` is
+    // test_utils-only in p2panda-net; this is what it does)
+    let url: RelayUrl = format!("https://{a}.relay.example").parse().expect("relay url");
+    TransportAddress::Iroh(EndpointAddr::new(from_verifying_key(key.verifying_key())).with_relay_url(url))
+}
+
+fn entry_ts(info: &NodeInfo) -> Option<(u64, u64)> {
+    match &info.transports {
+        Some(TransportInfo::Authenticated(t)) => Some(parts(&t.timestamp)),
+        Some(TransportInfo::Trusted(t)) => Some(parts(&t.timestamp)),
+        None => None,
+    }
+}
+
+fn authenticated(info: &NodeInfo) -> Option<AuthenticatedTransportInfo> {
+    match &info.transports {
+        Some(TransportInfo::Authenticated(t)) => Some(t.clone()),
+        _ => None,
+    }
+}
+
+enum Published {
+    /// same addresses as the previous record: dropped (discovery.rs:95-99)
+    Unchanged,
+    /// (timestamp of the built record, update_transports verdict on the own book)
+    Inserted((u64, u64), bool),
+}
+
+impl Chain {
+    fn new(seed: u8) -> Chain {
+        let key = SigningKey::from_bytes(&[seed.wrapping_add(7); 32]);
+        let id = key.verifying_key();
+        Chain { key, own: NodeInfo::new(id), obs: NodeInfo::new(id), published: vec![] }
+    }
+
+    /// The steps of `AddressBookDiscovery::publish` (iroh_endpoint/discovery.rs:71-108) on the real
+    /// types, with the wall clock reading `w1` while the record is created and `w2` while the
+    /// previous timestamp is incremented.
+    fn publish(&mut self, w1: u64, w2: u64, a: &str) -> Result<Published, String> {
+        let previous = authenticated(&self.own);
+        let addr = address(&self.key, a);
+        let key = self.key.clone();
+        let built = catch(|| {
+            set_wall(w1);
+            let unsigned = UnsignedTransportInfo::from_addrs([addr]);
+            set_wall(w2);
+            unsigned.increment_timestamp(previous.as_ref()).sign(&key)
+        })?;
+        let info = built.map_err(|e| format!("sign failed: {e}"))?;
+        if let Some(previous) = &previous
+            && info.addresses == previous.addresses
+        {
+            return Ok(Published::Unchanged);
+        }
+        let ts = parts(&info.timestamp);
+        let newer = self
+            .own
+            .update_transports(info.clone().into())
+            .map_err(|e| format!("update_transports on own record failed: {e}"))?;
+        self.published.push(info);
+        Ok(Published::Inserted(ts, newer))
+    }
+
+    /// A remote address book inserts the k-th (1-based) published record.
+    fn deliver(&mut self, k: usize) -> Result<bool, String> {
+        let info = self.published[k - 1].clone();
+        self.obs
+            .update_transports(info.into())
+            .map_err(|e| format!("update_transports on delivered record failed: {e}"))
+    }
+}
+
+fn check_chain(out: &mut Outcome, b: &Value) {
+    out.eval();
+    let mut chain = Chain::new(1);
+    let mut nontrivial = false;
+    for (idx, step) in b["steps"].as_array().expect("steps").iter().enumerate() {
+        let ev = step["ev"].as_str().expect("ev");
+        match ev {
+            "PublishFirst" | "PublishNext" | "PublishUnchanged" => {
+                let w1 = step["w1"].as_u64().unwrap();
+                let w2 = step["w2"].as_u64().unwrap();
+                let a = step["addr"].as_str().unwrap();
+                let before = entry_ts(&chain.own);
+                if let Some(prev) = before {
+                    if w2 <= prev.0 {
+                        nontrivial = true; // wall clock stood still or went backwards
+                        out.count(if w2 < prev.0 { "publish-wall-earlier" } else { "publish-wall-equal" });
+                    } else {
+                        out.count("publish-wall-later");
+                    }
+                }
+                match chain.publish(w1, w2, a) {
+                    Err(p) => {
+                        out.violation("C18", "publish-panics-or-fails", p, b.clone());
+                        return;
+                    }
+                    Ok(Published::Unchanged) => {
+                        if ev != "PublishUnchanged" {
+                            out.violation(
+                                "C18",
+                                "chain-differs-from-spec",
+                                format!("step {idx}: implementation dropped the record as unchanged, spec says {ev}"),
+                                b.clone(),
+                            );
+                            return;
+                        }
+                    }
+                    Ok(Published::Inserted(ts, newer)) => {
+                        if !newer || before.is_some_and(|p| hts(ts.0, ts.1) <= hts(p.0, p.1)) {
+                            out.violation(
+                                "C18",
+                                "own-record-not-accepted-as-newer",
+                                format!(
+                                    "step {idx}: self-published record with timestamp {ts:?} (wall clock {w1} / {w2}) \
+                                     after previous {before:?}: update_transports returned is_newer={newer}"
+                                ),
+                                b.clone(),
+                            );
+                            return;
+                        }
+                        let exp = pair(&step["ts"]);
+                        if ev == "PublishUnchanged" || ts != exp || newer != step["accepted"].as_bool().unwrap() {
+                            out.violation(
+                                "C18",
+                                "chain-differs-from-spec",
+                                format!("step {idx}: implementation published {ts:?} newer={newer}, spec says {step}"),
+                                b.clone(),
+                            );
+                            return;
+                        }
+                    }
+                }
+            }
+            "Deliver" => {
+                let k = step["k"].as_u64().unwrap() as usize;
+                if k < chain.published.len() && chain.obs.transports.is_some() {
+                    nontrivial = true; // out-of-order / duplicate delivery
+                }
+                match catch(|| chain.deliver(k)) {
+                    Ok(Ok(newer)) => {
+                        let got = entry_ts(&chain.obs);
+                        let exp = Some(pair(&step["obs"]));
+                        if got != exp || newer != step["newer"].as_bool().unwrap() {
+                            // the observer's "newer wins" verdict is the second sentence of C18
+                            out.violation(
+                                "C18",
+                                "observer-differs-from-spec",
+                                format!("step {idx}: observer holds {got:?} newer={newer}, spec says {step}"),
+                                b.clone(),
+                            );
+                            return;
+                        }
+                    }
+                    Ok(Err(e)) | Err(e) => {
+                        out.violation("C18", "deliver-panics-or-fails", e, b.clone());
+                        return;
+                    }
+                }
+            }
+            _ => {
+                eprintln!("unknown step: {step}");
+                std::process::exit(2);
+            }
+        }
+    }
+    if nontrivial {
+        out.mark_distinct(b["steps"].to_string());
+    }
+    out.sample(b.clone());
+}
+
+fn replay(args: &Args) {
+    let behaviours = read_ndjson(args.input.as_ref().expect("--in"));
+    let mut out = Outcome::new(
+        args,
+        "every TLC-enumerated (timestamp, wall reading) pair executed on the real HybridTimestamp::increment under the mock \
+         clock in 4 order-preserving magnitudes (distinct by input x magnitude); every exported publish/deliver chain executed on \
+         the real UnsignedTransportInfo / NodeInfo::update_transports (non-trivial = contains a publish with the wall clock not \
+         ahead of the previous record, or an out-of-order/duplicate delivery)",
+    );
+    for b in &behaviours {
+        match b["kind"].as_str() {
+            Some("inc") => check_inc(&mut out, b),
+            Some("chain") => check_chain(&mut out, b),
+            _ => {
+                eprintln!("unknown behaviour kind: {b}");
+                std::process::exit(2);
+            }
+        }
+    }
+    out.write(args);
+}
+
+// ------------------------------------------------------------------------------------------------
+
+/// Largest value TLC's 32-bit integers can carry (minus room for +1).
+const TLC_MAX: u64 = (i32::MAX - 2) as u64;
+
+fn near(rng: &mut Rng, x: u64, max: u64) -> u64 {
+    match rng.below(7) {
+        0 => x,
+        1 => x.saturating_sub(1),
+        2 => x.saturating_add(1).min(max),
+        3 => x.saturating_sub(rng.below(1000)),
+        4 => x.saturating_add(rng.below(1000)).min(max),
+        5 => if max == u64::MAX { rng.next_u64() } else { rng.below(max + 1) },
+        _ => *rng.pick(&[0, 1, max - 1, max]),
+    }
+}
+
+/// Seeded random increments / chains on the real code, recorded for Trace_HybridClock; plus
+/// full-range u64 increments judged directly (not representable in TLC).
+fn record(args: &Args) {
+    let mut rng = Rng::new(args.seed);
+    let n = if args.n > 0 { args.n } else { 100 };
+    let mut trace = TraceWriter::create(args.out.as_ref().expect("--out"));
+    let mut out = Outcome::new(
+        args,
+        "seeded random (timestamp, wall) pairs around each other (earlier / equal / later, extremes) through the real increment, \
+         random publish/deliver chains with a wall clock that jumps backwards, stands still and advances; one trace event per \
+         call; plus full-range u64 pairs judged by `out > ts` only",
+    );
+    for run in 0..n {
+        trace.event(json!({"ev": "Reset", "run": run}));
+        // single increments
+        for _ in 0..8 {
+            let t0 = rng.below(TLC_MAX);
+            let t = near(&mut rng, t0, TLC_MAX);
+            let l = *rng.pick(&[0, 0, 1, 2, 7, 1000, TLC_MAX - 1]);
+            let wall = near(&mut rng, t, TLC_MAX);
+            out.eval();
+            match increment_at((t, l), wall) {
+                Ok(got) => {
+                    out.mark_distinct(format!("inc:{t}:{l}:{wall}"));
+                    out.count(if wall < t { "wall-earlier" } else if wall == t { "wall-equal" } else { "wall-later" });
+                    if hts(got.0, got.1) <= hts(t, l) {
+                        out.violation(
+                            "C18",
+                            "increment-not-greater",
+                            format!("increment of {:?} with the wall clock at {wall} returned {got:?}, which is not greater", (t, l)),
+                            json!({"kind": "inc", "ts": [t, l], "wall": wall, "out": [got.0, got.1]}),
+                        );
+                    }
+                    let ev = json!({"ev": "Inc", "ts": [t, l], "wall": wall, "out": [got.0, got.1]});
+                    out.sample(ev.clone());
+                    trace.event(ev);
+                }
+                Err(p) => out.violation("C18", "increment-panics", p, json!({"kind": "inc", "ts": [t, l], "wall": wall})),
+            }
+        }
+        // full u64 range (logical part below u64::MAX: its successor does not exist)
+        for _ in 0..8 {
+            let t0 = rng.next_u64();
+            let t = near(&mut rng, t0, u64::MAX);
+            let l = *rng.pick(&[0, 1, u64::MAX / 2, u64::MAX - 1]);
+            let wall = near(&mut rng, t, u64::MAX);
+            out.eval();
+            match increment_at((t, l), wall) {
+                Ok(got) => {
+                    out.count("u64-range");
+                    if hts(got.0, got.1) <= hts(t, l) {
+                        out.violation(
+                            "C18",
+                            "increment-not-greater",
+                            format!("increment of {:?} with the wall clock at {wall} returned {got:?}, which is not greater", (t, l)),
+                            json!({"kind": "inc-u64", "ts": [t.to_string(), l.to_string()], "wall": wall.to_string()}),
+                        );
+                    }
+                }
+                Err(p) => out.violation(
+                    "C18",
+                    "increment-panics",
+                    p,
+                    json!({"kind": "inc-u64", "ts": [t.to_string(), l.to_string()], "wall": wall.to_string()}),
+                ),
+            }
+        }
+        // one chain
+        let mut chain = Chain::new(run as u8);
+        let base = rng.below(TLC_MAX - 100_000);
+        let mut wall = base + 50_000;
+        let steps = rng.range(4, 14);
+        let addrs = ["x", "y", "z"];
+        for _ in 0..steps {
+            if chain.published.is_empty() || rng.chance(2, 3) {
+                // clock readings: jump back, stand still, creep or jump forward
+                let prev_t = entry_ts(&chain.own).map(|p| p.0);
+                let reading = |rng: &mut Rng, wall: &mut u64| {
+                    match rng.below(7) {
+                        0 => *wall = wall.saturating_sub(rng.range(1, 20_000)).max(base),
+                        1 => {}
+                        2 => *wall = prev_t.unwrap_or(*wall), // exactly the previous record's time
+                        3 => *wall += 1,
+                        _ => *wall += rng.range(1, 5_000),
+                    }
+                    *wall
+                };
+                let w1 = reading(&mut rng, &mut wall);
+                let w2 = reading(&mut rng, &mut wall);
+                let a = *rng.pick(&addrs);
+                let first = chain.own.transports.is_none();
+                let before = entry_ts(&chain.own);
+                out.eval();
+                match chain.publish(w1, w2, a) {
+                    Ok(Published::Unchanged) => {
+                        trace.event(json!({"ev": "PublishUnchanged", "w1": w1, "w2": w2, "addr": a}));
+                    }
+                    Ok(Published::Inserted(ts, newer)) => {
+                        out.mark_distinct(format!("pub:{run}:{w1}:{w2}:{a}"));
+                        if let Some(p) = before {
+                            out.count(if w2 < p.0 { "publish-wall-earlier" } else if w2 == p.0 { "publish-wall-equal" } else { "publish-wall-later" });
+                        }
+                        if !newer {
+                            out.violation(
+                                "C18",
+                                "own-record-not-accepted-as-newer",
+                                format!("self-published record {ts:?} (wall {w1}/{w2}) after {before:?} was not accepted as newer"),
+                                json!({"run": run, "w1": w1, "w2": w2, "before": before, "ts": ts}),
+                            );
+                        }
+                        let own = entry_ts(&chain.own).unwrap();
+                        if first {
+                            trace.event(json!({"ev": "PublishFirst", "w1": w1, "addr": a, "ts": [ts.0, ts.1], "accepted": newer}));
+                        } else {
+                            trace.event(json!({"ev": "PublishNext", "w1": w1, "w2": w2, "addr": a, "ts": [ts.0, ts.1],
+                                               "accepted": newer, "own": [own.0, own.1]}));
+                        }
+                    }
+                    Err(p) => {
+                        out.violation("C18", "publish-panics-or-fails", p, json!({"run": run, "w1": w1, "w2": w2}));
+                        break;
+                    }
+                }
+            } else {
+                let k = rng.range(1, chain.published.len() as u64) as usize;
+                out.eval();
+                match catch(|| chain.deliver(k)) {
+                    Ok(Ok(newer)) => {
+                        let o = entry_ts(&chain.obs).unwrap();
+                        trace.event(json!({"ev": "Deliver", "k": k, "newer": newer, "obs": [o.0, o.1]}));
+                    }
+                    Ok(Err(e)) | Err(e) => {
+                        out.violation("C18", "deliver-panics-or-fails", e, json!({"run": run, "k": k}));
+                        break;
+                    }
+                }
+            }
+        }
+    }
+    let (events, runs) = trace.finish();
+    out.set_trace(events, runs);
+    out.write(args);
 }
